@@ -3,6 +3,7 @@ use crate::report::{CheckOutput, Ctx};
 pub mod c01;
 pub mod c02;
 pub mod c03;
+pub mod c05;
 pub mod c06;
 pub mod c07;
 pub mod c08;
@@ -21,6 +22,7 @@ pub fn run(ctx: &Ctx) -> Option<CheckOutput> {
 		"C01" => c01::run(ctx),
 		"C02" => c02::run(ctx),
 		"C03" => c03::run(ctx),
+		"C05" => c05::run(ctx),
 		"C06" => c06::run(ctx),
 		"C07" => c07::run(ctx),
 		"C08" => c08::run(ctx),
@@ -53,6 +55,7 @@ pub fn replay_file(path: &str) -> i32 {
 			"C01" => c01::replay(case),
 			"C02" => c02::replay(case),
 			"C03" => c03::replay(case),
+			"C05" => c05::replay(case),
 			"C06" => c06::replay(case),
 			"C07" => c07::replay(case),
 			"C08" => c08::replay(case),
